@@ -225,6 +225,12 @@ func Main(h Harness) {
 				return
 			}
 			total.Evaluations += r.Evaluations
+			if f := os.Getenv("VERIF_DEBUG_BATCHES"); f != "" {
+				if fh, err := os.OpenFile(f, os.O_APPEND|os.O_CREATE|os.O_WRONLY, 0o644); err == nil {
+					fmt.Fprintf(fh, "%s from=%d evaluations=%d nontrivial=%d\n", string(t.Batch), t.From, r.Evaluations, r.Nontrivial)
+					fh.Close()
+				}
+			}
 			total.Nontrivial += r.Nontrivial
 			total.Skipped += r.Skipped
 			total.States += r.States
